@@ -47,7 +47,7 @@ impl Case for InstCase {
 
 fn inst_strategy() -> BoxedStrategy<InstCase> {
     (
-        any::<u64>(),
+        u64_edges(),
         proptest::option::of(svmodel::json::string_strategy()),
         proptest::option::of("[a-z0-9]{0,12}"),
         proptest::option::of(proptest::collection::vec(("[a-z]{3,6}", any::<u128>()), 0..3)),
